@@ -139,6 +139,33 @@ def labelled_centres(m):
     return out
 
 
+def gap_a_ring(m, orb):
+    """gap (a) of the ring type: two same-orbit substituents of a labelled centre are joined by a path that avoids the centre
+    (1,4-disubstituted cyclohexane, spiro and bicyclic centres).  The acyclic type (two separate equivalent arms that differ
+    only by their own labels) is the other case"""
+    for kind, c, ends, h in labelled_centres(m):
+        centre = {c} if kind == 't' else set(c)
+        if kind == 'c':
+            path = next((p for p in m.stereogenic_cumulenes if {p[0], p[-1]} == set(c)), ())
+            centre |= set(path)
+        for subs in ends:
+            for i in range(len(subs)):
+                for j in range(i + 1, len(subs)):
+                    x, y = subs[i], subs[j]
+                    if orb[x] != orb[y]:
+                        continue
+                    seen, stack = {x}, [x]
+                    while stack:
+                        v = stack.pop()
+                        for w in m._bonds[v]:
+                            if w == y:
+                                return True
+                            if w not in centre and w not in seen:
+                                seen.add(w)
+                                stack.append(w)
+    return False
+
+
 def gap_a(m, orb):
     """a labelled centre has two substituents in one constitutional orbit"""
     for kind, c, ends, h in labelled_centres(m):
